@@ -369,6 +369,7 @@ pub fn process_file_or_dir(
 
     for entry in walkdir::WalkDir::new(input_path)
         .follow_links(false)
+        .follow_root_links(false)
         .into_iter() {
             let entry = match entry {
                 Err(e) => {
